@@ -160,6 +160,9 @@ func (cc *checkCtx) report() int {
 		if r.Smoke == "unsat" {
 			cc.broken = append(cc.broken, fmt.Sprintf("vacuity: preconditions/axioms of %s are contradictory", vc.key))
 		}
+		if r.Exit == "unsat" && r.Smoke != "unsat" && n > 0 {
+			cc.broken = append(cc.broken, fmt.Sprintf("vacuity: the normal exit of %s is unreachable under the contracts it uses (its postconditions hold vacuously)", vc.key))
+		}
 		for _, d := range r.Disagree {
 			cc.broken = append(cc.broken, "solver disagreement: "+d)
 		}
